@@ -21,10 +21,26 @@ def _lsp():
     return types
 
 
-def _conv():
-    from lsprotocol import converters
+_CONV = None
 
-    return converters.get_converter()
+
+def _conv():
+    """ONE converter per run: the generated functions that are analysed and the converter the z3 models are replayed on
+    must be the same object (per-converter state, e.g. caches inside the hook factories, is part of what is analysed)"""
+    global _CONV
+    if _CONV is None:
+        from lsprotocol import converters
+
+        _CONV = converters.get_converter()
+    return _CONV
+
+
+HISTORY_PRELUDE = (
+    "from vlib import classlemmas\n"
+    "def _converter_with_history():\n"
+    "    # same creation history as the check: one converter that generated the functions of all classes in metamodel order\n"
+    "    c = classlemmas._conv(); classlemmas.all_cases(c); return c\n"
+)
 
 
 JSONRPC = {"name": "jsonrpc", "type": {"kind": "stringLiteral", "value": "2.0"}, "envelope": True}
@@ -377,9 +393,9 @@ def replay_sat(chk, c, kind, m):
 
 
 def _emit_code(name, j, none_attrs, want):
-    return (
+    return HISTORY_PRELUDE + (
         "import json\nfrom lsprotocol import converters, types\nJ = json.loads(%r)\nNONE = %r\nWANT = %r\n"
-        "def replay():\n    c = converters.get_converter(); T = getattr(types, %r)\n    o = c.structure(J, T)\n"
+        "def replay():\n    c = _converter_with_history(); T = getattr(types, %r)\n    o = c.structure(J, T)\n"
         "    for a in NONE: object.__setattr__(o, a, None)\n    out = c.unstructure(o, T)\n"
         "    bad = [w for w, x in WANT.items() if (w in out) != x] + [w for w in out if w not in WANT]\n"
         "    return (not bad, 'keys with wrong null/omit treatment: %%s' %% bad)\n"
